@@ -2904,14 +2904,16 @@ func treasureToKeyValuePair(treasureInterface treasure.Treasure, t *hydrapb.Trea
 		// do nothing
 	}
 
-	if treasureInterface.GetCreatedAt() > 0 {
+	// 0 means "not set"; instants before 1970 are negative UnixNano values and are
+	// real creation / modification times (same rule as ExpiredAt below).
+	if treasureInterface.GetCreatedAt() != 0 {
 		t.CreatedAt = timestamppb.New(time.Unix(0, treasureInterface.GetCreatedAt()))
 	}
 	if treasureInterface.GetCreatedBy() != "" {
 		createdBy := treasureInterface.GetCreatedBy()
 		t.CreatedBy = &createdBy
 	}
-	if treasureInterface.GetModifiedAt() > 0 {
+	if treasureInterface.GetModifiedAt() != 0 {
 		t.UpdatedAt = timestamppb.New(time.Unix(0, treasureInterface.GetModifiedAt()))
 	}
 	if treasureInterface.GetModifiedBy() != "" {
